@@ -1071,7 +1071,19 @@ func (c *cloner) absorb(call *ast.CallExpr, lhs []ast.Expr, tok token.Token, tai
 				cc := &cloner{src: c.dst, dst: c.dst}
 				l2 = append(l2, cc.node(l).(ast.Expr))
 			}
-			out = append(out, &ast.AssignStmt{Lhs: l2, TokPos: r.Pos(), Tok: tok, Rhs: vals})
+			// `return r, err` of a named result that is the caller's variable already would read `x, e = x, err`:
+			// the self-assignment is dropped
+			var l3, v3 []ast.Expr
+			for k := range l2 {
+				li, vi := identOf(l2[k]), identOf(vals[k])
+				if li != nil && vi != nil && c.dst.Uses[li] != nil && c.dst.Uses[li] == c.dst.Uses[vi] {
+					continue
+				}
+				l3, v3 = append(l3, l2[k]), append(v3, vals[k])
+			}
+			if len(l3) > 0 {
+				out = append(out, &ast.AssignStmt{Lhs: l3, TokPos: r.Pos(), Tok: tok, Rhs: v3})
+			}
 		case len(vals) > 0:
 			// results are dropped by the caller: keep the evaluation
 			var blanks []ast.Expr
